@@ -61,8 +61,10 @@ def plan(tier, seed):
     if tier == 'quick':
         rnd.shuffle(cells)
         cells = cells[:2600]
-        return [{'cell': c, 'seed': seed, 'idx': i, 'variants': 1} for i, c in enumerate(cells)]
-    return [{'cell': c, 'seed': seed, 'idx': i, 'variants': 6} for i, c in enumerate(cells)]
+        return ([{'cell': c, 'seed': seed, 'idx': i, 'variants': 1} for i, c in enumerate(cells)] +
+                [{'kind': 'live', 'seed': seed, 'idx': i} for i in range(3)])
+    return ([{'cell': c, 'seed': seed, 'idx': i, 'variants': 6} for i, c in enumerate(cells)] +
+            [{'kind': 'live', 'seed': seed, 'idx': i} for i in range(30)])
 
 
 def materialise(spec, v):
@@ -102,8 +104,28 @@ def materialise(spec, v):
     return h
 
 
+def live_case(spec, res):
+    """the same rules judged on the kernel's own record: a real circusd under strace"""
+    from vlib import livehist
+    rnd = rng_for(spec['seed'], 'C03-live', spec['idx'])
+    ls = livehist.gen_spec(rnd, nsteps=5)
+    rec = livehist.run(ls)
+    if rec['problem']:
+        res.inconclusive.append('live: ' + rec['problem'][:200])
+        return
+    livehist.judge_kill_timing(rec, res, ls)
+    res.obs['live_daemons'] += 1
+    res.nontrivial(repr(('live', [(w['kind'], w['stop_signal'], w['gt']) for w in ls['watchers']], ls['steps'])))
+    res.sample = {'live': True, 'watchers': ls['watchers'], 'steps': ls['steps'], 'daemon_kill_calls': len(rec['kills'])}
+
+
 def run_case(spec):
     res = CaseResult()
+    if spec.get('kind') == 'live':
+        live_case(spec, res)
+        for v in res.viol:
+            v['spec'] = spec
+        return res
     if 'watchers' in spec:
         run_history(spec, res)
         return res
